@@ -1,3 +1,4 @@
+import BlackIt.Model.Samplers
 import BlackIt.Properties.C09
 import BlackIt.Properties.C02
 set_option linter.unusedSectionVars false
@@ -112,6 +113,58 @@ theorem consistent_after_failures (c : Comp Θ S L σ) (cfg : Cfg) (samplers : L
   have := roundRobin_batch_i c cfg samplers (ns.map Op.calibrate)
   rw [hfold] at this
   exact this.1
+
+/-! ### the particle swarm after a failed batch ("a subsequent calibrate() on the same object works")
+
+The only built-in sampler with state that refers to the history by *position* is the particle swarm.  `_update_best`
+takes `argmin` of the losses it is given — an error on an empty array — so a swarm that proposed a batch which then
+failed (nothing recorded) must not "update" from an empty history at its next call. -/
+namespace PsoProps
+open BlackIt.Samplers
+
+/-- **C11, swarm side.**  Whatever state the sampler object is in and whatever history lengths it is handed afterwards
+(failed batches hand the same length again, including 0), `_update_best` is never run on an empty history. -/
+theorem pso_argmin_never_on_empty (bs : Nat) (p : Pso) (ns : List Nat) :
+    ∀ n lo hi, PsoAct.update n lo hi ∈ Pso.run (Pso.sampleBatch bs) p ns → 0 < n := by
+  induction ns generalizing p with
+  | nil => intro n lo hi h; simp [Pso.run] at h
+  | cons m ms ih =>
+    intro n lo hi h
+    simp only [Pso.run, List.mem_cons] at h
+    rcases h with h | h
+    · unfold Pso.sampleBatch at h
+      split at h
+      · cases h
+      · rename_i hc
+        simp only [Bool.or_eq_true, Bool.not_eq_true', beq_iff_eq, not_or] at hc
+        injection h with h1 _ _
+        omega
+    · exact ih _ n lo hi h
+
+/-- after a call, the object is set up and remembers the length it was handed (both versions) -/
+theorem pso_state_after_call (bs : Nat) (p : Pso) (n : Nat) :
+    (Pso.sampleBatch bs p n).1 = ⟨true, n⟩ := by
+  unfold Pso.sampleBatch; split <;> rfl
+
+/-- when the batch proposed at history length `n` was recorded (the next call sees at least `n + bs` rows), the rows the
+swarm reads as its particles' outcomes are exactly that batch: rows `n … n+bs-1`, all present -/
+theorem pso_reads_its_own_batch (bs : Nat) (p : Pso) (n n' : Nat) (hn : 0 < n') (hrec : n + bs ≤ n') :
+    (Pso.sampleBatch bs (Pso.sampleBatch bs p n).1 n').2 = .update n' n (n + bs) ∧ n + bs ≤ n' := by
+  rw [pso_state_after_call]
+  unfold Pso.sampleBatch
+  have : ¬ ((!true || n' == 0) = true) := by simp; omega
+  simp only [this, if_false]
+  exact ⟨rfl, hrec⟩
+
+/-- **witness for the pinned commit** (repaired in `/repo`, `fix:` f993eb2): a swarm that is first in the line-up and
+whose first batch fails is handed the empty history again and runs `argmin` on it -/
+theorem pso_pinned_argmin_on_empty :
+    PsoAct.update 0 0 3 ∈ Pso.run (Pso.sampleBatchPinned 3) Pso.init [0, 0] := by decide
+
+/-- the repaired code on the same calls starts the swarm again -/
+example : Pso.run (Pso.sampleBatch 3) Pso.init [0, 0, 3, 3, 9] = [.start, .start, .update 3 0 3, .update 3 3 6, .update 9 3 6] := by decide
+
+end PsoProps
 
 /-! ### non-vacuity: the third model invocation raises in the second batch -/
 section Example
